@@ -39,7 +39,7 @@ class _Runner:
             if self.stop_at is not None and self.count == self.stop_at:
                 self.reached = True
                 self.paused.set()
-                self.go.wait(20)
+                self.go.wait(10)
         return self._local
 
     def _global(self, frame, event, arg):
@@ -77,7 +77,9 @@ def staggered(fn_a, fn_b, k1: int, k2: int, pkg_prefix: str) -> tuple:
     b.thread.start()
     b.paused.wait(1.0)          # b pauses at k2, finishes, or blocks on a lock a holds: after a real switch the scheduler would return to a as well
     a.go.set()
-    a.thread.join(120)
+    a.thread.join(0.5)
+    # (if a is still running it may be blocked on a lock that b holds at its stopping point: as after a real switch, b goes on)
     b.go.set()
+    a.thread.join(120)
     b.thread.join(120)
     return a.result, b.result, a.reached, b.reached
